@@ -79,11 +79,11 @@ func (m *Manager) Clear(rw http.ResponseWriter, req *http.Request) error {
 			options: m.Options,
 		}
 		tckt.clearCookie(rw, req)
-		// Don't raise an error if we didn't have a Cookie
-		if err == http.ErrNoCookie {
-			return nil
-		}
-		return fmt.Errorf("error decoding ticket to clear session: %v", err)
+		// Don't raise an error if we didn't have a Cookie or if the Cookie
+		// doesn't hold a valid ticket (tampered, expired, or not a ticket):
+		// such a cookie cannot load a session either, so there is nothing to
+		// clear in the store and the cookie itself has just been cleared.
+		return nil
 	}
 
 	tckt.clearCookie(rw, req)
